@@ -463,6 +463,13 @@ func runCheck(opts checkOpts) (int, map[string]any) {
 		return fail("vacuity: contradictory assumptions, or return sites that no input reaches (declare dead code under the contract with 'deadreturn'): " + strings.Join(coverFails, "; "))
 	}
 	sort.Slice(slows, func(i, j int) bool { return slows[i].t > slows[j].t })
+	if os.Getenv("VERIF_SLOW") != "" {
+		for _, sl := range slows {
+			if sl.t > 2.5 && !strings.Contains(sl.name, "/smoke.") && !strings.Contains(sl.name, "/cover.") {
+				fmt.Fprintf(os.Stderr, "SLOW %.1fs %s\n", sl.t, sl.name)
+			}
+		}
+	}
 	// report violations
 	replayDir := filepath.Join(opts.verif, "out", "replay")
 	os.MkdirAll(replayDir, 0o755)
